@@ -7,17 +7,19 @@ open Conn
 
 /-- (tie) the run conditions of the five state systems, the gates of the three replication chains, the
 transport check in `verify_client_connected` and the three sites that raise / send the sync-finished
-signal, as regenerated from the source; `set_client_to_disconnected` runs in every state but Disconnected (D10 repaired) -/
+signal, as regenerated from the source; `set_client_to_disconnected` runs in every state but Disconnected (D10 repaired), `set_client_to_connecting` for every
+newly inserted transport whatever the state (D19 repaired) -/
 theorem C15_code_tie :
     Generated.connServerConditions = true ∧ Generated.connClientConditions = true ∧
-    Generated.connClientDisconnectLegacy = false ∧ Generated.connReplicationGated = true ∧
+    Generated.connClientDisconnectLegacy = false ∧ Generated.connConnectingOnlyFromDisconnected = false ∧
+    Generated.connReplicationGated = true ∧
     Generated.connVerifyChecksTransport = true ∧ Generated.connSyncFinishedSites = true := by decide
 
 /-- the invariants hold in every state reachable by any sequence of start-hosting / stop / connect /
 disconnect / reconnect operations, handshake events and frames -/
 theorem C15_server_reachable (ops : List Op) : (ops.foldl Server.step {}).Inv :=
   Server.inv_run {} ops Server.inv_init
-theorem C15_client_reachable (ops : List Op) : (ops.foldl (Client.step false) {}).Inv :=
+theorem C15_client_reachable (ops : List Op) : (ops.foldl (Client.step false false) {}).Inv :=
   Client.inv_run {} ops Client.inv_init
 
 /-- **ServerState follows hosting within two frames**, from every reachable state -/
@@ -41,31 +43,50 @@ theorem C15_client_never_early (lg : Bool) (c : Client) :
 /-- **Disconnected → Connecting → Connected as the connection is established** -/
 theorem C15_client_progress (c : Client) :
     (c.next.getD c.state = .disconnected → c.transport = true → c.added = true → (c.frame false).next = some .connecting) ∧
-    (c.next.getD c.state = .connecting → c.transport = true → c.renetConnected = true → (c.frame false).next = some .connected) :=
+    (c.next.getD c.state = .connecting → c.transport = true → c.added = false → c.renetConnected = true →
+      (c.frame false).next = some .connected) :=
   ⟨Client.progress c, Client.progress_verify c⟩
+
+/-- **a reconnect inside one frame is a new join.** The application removes its transport and inserts a new one between
+two frames of a connected client (the state never passes through Disconnected): the next frame requests Connecting, and
+once the new connection is up exactly one further RequestInitialSync goes out -/
+theorem C15_reconnect_within_one_frame :
+    let c0 := [Op.insert, .frame, .frame, .setConnected true, .frame, .frame].foldl (Client.step false false) {}
+    let c1 := [Op.remove, .insert, .frame].foldl (Client.step false false) c0
+    let c2 := [Op.frame, .setConnected true, .frame, .frame, .frame].foldl (Client.step false false) c1
+    c0.state = .connected ∧ c0.requests = 1 ∧ c1.next = some .connecting ∧
+    c2.state = .connected ∧ c2.requests = 2 := by decide
+
+/-- the repaired defect stays machine-checked: while `set_client_to_connecting` also required `in_state(Disconnected)`
+the same history left the client at Connected without ever asking for the new connection's snapshot -/
+theorem C15_false_with_strict_connecting :
+    let c0 := [Op.insert, .frame, .frame, .setConnected true, .frame, .frame].foldl (Client.step false true) {}
+    let c2 := [Op.remove, .insert, .frame, .frame, .setConnected true, .frame, .frame, .frame].foldl (Client.step false true) c0
+    c2.state = .connected ∧ c2.requests = 1 ∧ c2.renetConnected = true := by decide
 
 /-- **back to Disconnected within two frames of the application removing its transport**, from every reachable state -/
 theorem C15_client_disconnects_within_two (ops : List Op) :
-    let c := ops.foldl (Client.step false) {}
+    let c := ops.foldl (Client.step false false) {}
     c.transport = false → ((c.frame false).frame false).state = .disconnected :=
   fun ht => Client.disconnects_within_two _ (C15_client_reachable ops) ht
 
 /-- **exactly one RequestInitialSync per join** (the host answers each with one snapshot terminated by one
 FinishedInitialSync, which raises the event on the client: see the tie and the trace oracle) -/
-theorem C15_request_once (c : Client) :
+theorem C15_request_once (ops : List Op) :
+    let c := ops.foldl (Client.step false false) {}
     ((c.frame false).requests = c.requests + 1 → (c.frame false).next = some .connected) ∧
     ((c.frame false).next = some .connected → ((c.frame false).frame false).requests = (c.frame false).requests) :=
-  Client.request_once c
+  Client.request_once _ (C15_client_reachable ops)
 
 /-- the repaired defect stays machine-checked: with the pre-repair condition a transport removed while
 Connecting leaves the client at Connecting for ever -/
 theorem C15_false_with_legacy_condition :
-    let c := [Op.insert, .frame, .frame, .remove, .frame, .frame, .frame, .frame].foldl (Client.step true) {}
+    let c := [Op.insert, .frame, .frame, .remove, .frame, .frame, .frame, .frame].foldl (Client.step true false) {}
     c.state = .connecting ∧ c.next = none ∧ c.transport = false := by decide
 
 /-- non-vacuity: a full client life cycle and a hosting cycle -/
 example :
-    let c := [Op.insert, .frame, .frame, .setConnected true, .frame, .frame].foldl (Client.step false) {}
+    let c := [Op.insert, .frame, .frame, .setConnected true, .frame, .frame].foldl (Client.step false false) {}
     c.state = .connected ∧ c.requests = 1 := by decide
 example :
     let s := [Op.insert, .frame, .frame, .remove, .frame, .frame].foldl Server.step {}
